@@ -254,6 +254,11 @@ def run(P: Program, R: Report, tier: str) -> None:
     source_id_truthiness(P, R, "R14.7")
     # ---- R14.8 the 'missing' mask of a loaded property survives the renaming step
     missing_mask_passthrough(P, R, "R14.8")
+    # ---- R14.10 / R14.11 (= R12.10 / R12.13) what the reader does to values and ids on the way back in
+    from .c12 import combination_promotes, integer_ids_are_kept
+
+    combination_promotes(P, R, "R14.10")
+    integer_ids_are_kept(P, R, "R14.11")
 
 
 def missing_mask_passthrough(P: Program, R: Report, rule: str) -> None:
@@ -280,6 +285,45 @@ def missing_mask_passthrough(P: Program, R: Report, rule: str) -> None:
             defs = [s for s in ast.walk(g.node) if isinstance(s, ast.Assign) and any(isinstance(t, ast.Name) and t.id in names for t in s.targets)]
             exprs = [mv] + [s.value for s in defs]
             src_ok = any('"missing"' in norm(e).replace("'", '"') for e in exprs)
+            # the mask may be fetched (and normalised) by a helper of the package: look at what the helper returns
+            helper_verdicts = []
+            for e in exprs:
+                if isinstance(e, ast.Call) and isinstance(e.func, ast.Name):
+                    hq = P.resolve_name(g.module, e.func.id)
+                    h = P.functions.get(hq) if hq else None
+                    if h is not None and ".import_export." in h.qname:
+                        from .util import guards_of as _go
+
+                        hdefs = {t.id: s_.value for s_ in ast.walk(h.node) if isinstance(s_, ast.Assign) for t in s_.targets if isinstance(t, ast.Name)}
+                        for r_ in [x for x in ast.walk(h.node) if isinstance(x, ast.Return)]:
+                            if r_.value is None or (isinstance(r_.value, ast.Constant) and r_.value.value is None):
+                                conds = [x.replace(" ", "") for x in _go(h, r_)]
+                                # each disjunct that lets the mask be dropped must say "flags nothing" (or "there is none")
+                                flat = []
+                                for cnd in conds:
+                                    flat += cnd.split("or") if "or" in cnd and "and" not in cnd else [cnd]
+                                for cnd in flat:
+                                    if cnd.endswith("isNone") or cnd.startswith("not") and ".any()" in cnd or "np.any(" in cnd and cnd.startswith("not") or ".sum()==0" in cnd:
+                                        helper_verdicts.append(("ok", cnd))
+                                    elif ".all()" in cnd or "np.all(" in cnd:
+                                        helper_verdicts.append(("bad", cnd))
+                                    else:
+                                        helper_verdicts.append(("unknown", cnd))
+                            else:
+                                rv = r_.value
+                                txt = norm(rv).replace("'", '"') + " " + " ".join(norm(hdefs[n_.id]).replace("'", '"') for n_ in ast.walk(rv) if isinstance(n_, ast.Name) and n_.id in hdefs)
+                                helper_verdicts.append(("src" if '"missing"' in txt else "unknown", norm(rv)[:40]))
+            if helper_verdicts:
+                lab = f"{g.short}: the renamed property takes its mask from the source property's mask"
+                bad_ = [v for v in helper_verdicts if v[0] == "bad"]
+                if bad_:
+                    R.fail(rule, g, d, f"{g.short}: the mask is normalised to None only when it flags nothing",
+                           f"the helper returns None under `{bad_[0][1]}`: a mask that flags SOME elements is dropped, those elements come back with the fill value")
+                elif any(v[0] == "src" for v in helper_verdicts) and not any(v[0] == "unknown" for v in helper_verdicts):
+                    R.ok(rule, g, d, lab, "through a helper that returns the source mask (None only when it flags nothing)", via="dataflow")
+                else:
+                    R.undecided(rule, g, d, lab, f"helper returns {[v[1] for v in helper_verdicts if v[0] == 'unknown']}")
+                continue
             R.check(src_ok, rule, g, d, f"{g.short}: the renamed property takes its mask from the source property's mask",
                     f"`missing` is built from `{norm(mv)[:60]}`: the source mask is dropped - absent values come back as the fill value", via="dataflow")
             # places where the mask is replaced by None
